@@ -9,7 +9,7 @@ func init() {
 			"an interval is flagged when the end record's error time is at/after the start time or the start record's error time equals its time; spot-price errors, zero or clamped prices stamp the error time with the block time; the record at-or-before a time is found by reverse iteration ending at that time; pruning never deletes the newest record before the keep time; new records update the most-recent and historical indexes together.",
 		NotCovered:  []string{"TWAP = time-weighted mean as a value (integral over price histories)", "bounds by min/max price", "reciprocity of the geometric directions", "precision"},
 		Assumptions: []string{"osmomath.Exp2 / log2 accuracy (C13)"},
-		MinObl:      28,
+		MinObl:      37,
 		Run:         runC10,
 	})
 }
